@@ -379,6 +379,7 @@ class NDNApp:
                 self._put_raw_packet(data)
             else:
                 self._put_raw_packet_with_pit_token(data, pit_token)
+            return True
 
         # In case the validator blocks the pipeline, create a task
         async def submit_interest():
